@@ -70,7 +70,7 @@ RunVerdicts(c) ==
 MeasureLine(c) ==
   LET S == Measures(Ctx0(c, "static", {})) IN
   <<"MEASURE", c.id, S["depth"], S["complexity"], Complexity(Ctx0(c, "dynamic", {})), S["recursive"], S["directives"],
-    InliningLaw(Ctx0(c, "static", {})) /\ InliningLaw(Ctx0(c, "dynamic", {}))>>
+    InliningLaw(Ctx0(c, "static", {}))>>
 
 TInit == l = 1
 TNext == /\ l <= Len(Cases)
